@@ -10,7 +10,7 @@ for s in $seeds; do
   d=/verif/seeded/$s
   if python3 -c "import json,sys;sys.exit(0 if json.load(open('$d/meta.json')).get('neutralised') else 1)"; then continue; fi
   prop=$(python3 -c "import json;print(json.load(open('$d/meta.json'))['property'])")
-  only=$(grep -h "seed=\(seed_\)\?$s " /verif/out/seed_round*.txt 2>/dev/null | grep -o 'caught_by=.*' | sed 's/caught_by=//' | tr ',' '\n' | sed 's/:.*//' | grep . | sort -u | tr '\n' ',' | sed 's/,$//')
+  only=$(grep -h "seed=\(seed_\)\?$s " /verif/out/seed_round*.txt 2>/dev/null | grep -o 'caught_by=[^ ]*' | sed 's/caught_by=//' | tr ',' '\n' | sed 's/:.*//' | grep . | sort -u | tr '\n' ',' | sed 's/,$//')
   if [ "${SEED_IN_WORKTREE:-0}" = 1 ]; then
     # /repo is busy: run against a patched scratch worktree (SYMGO_REPO) instead of touching /repo
     wt=/tmp/wtr_$$
